@@ -60,7 +60,9 @@ TRUSTED = [
 ASSUMPTIONS = [
     "KNOWN FINDINGS inside the quantifier, each attributed only by the owning property's rule (ids <Fxx>/C19): F22 convex_hull_ijv "
     "coordinates > 46340 (int32 turn test wraps, a label can overrun its rows); F23 median_filter with columns + 2*radius + 1 >= "
-    "1573248 (32-bit scratch size wraps); F26 emd_hat_int32 on zero-length histograms with a flow type; F20 (next line). The "
+    "1573248 (32-bit scratch size wraps); F26 emd_hat_int32 on zero-length histograms with a flow type; F36 an index list "
+    "that repeats its largest label handed to convex_hull_ijv (out-of-bounds READ one row past the sorted buffer; the result "
+    "depends on the garbage read); F20 (next line). The "
     "index-safety theorems apply to the compiled code inside these input bounds only",
     "other narrow C types (int32 / uint32 flat indices, int strides, unsigned int heap capacity * width): they wrap only from 2^30 "
     "(grey_reconstruction: 2 planes, int32 links) / 2^31 pixels, rows or triples on, i.e. > 16 GB of input - treated as a resource "
@@ -130,7 +132,12 @@ KERNEL_STATUS = {
                         "C02_hull_no_overflow); for the compiled int32 turn test: C19_convex_hull_label_write_bound_as_written, "
                         "INPUT BOUND coordinates <= 46340 (M*M < 2^31, C02_wrap_transfer). Beyond it: known finding F22 (a "
                         "repeated vertex overruns the label's rows; C19_reexp_C02_convex_wrap_refuted)",
-                        "kernel_pre_hull", "the reads of the buffer walk (C02's model uses total accessors); F22 class "
+                        "kernel_pre_hull (asserts + repeat-free index list; FALSE on every list with a repeated label: "
+                        "C19_hull_pre_rejects_repeated_max - repeated lists are accepted by the API, so they are not counted as "
+                        "a caller-side failure)",
+                        "the reads of the buffer walk (C02's model uses total accessors): known finding F36 - an index list "
+                        "that repeats its LARGEST label makes the kernel read labels_ijv[pixidx, 2] one row past the buffer "
+                        "(own stream through six APIs, fork-isolated, attributed by that call-site rule); F22 class "
                         "fork-isolated, attributed by C02's as-written model"),
     "median_filter": ("Full, piecewise: C19_median_model_safe (C07's invariant carries every array size; column step), "
                       "C19_median_pre_indices, C19_median_hist_indices, C19_median_pixel_offset",
@@ -365,6 +372,10 @@ def _mk_spies(real):
                     _unmon("convex_hull_ijv", rejected=True)     # the asserts / max() of an empty array raise first
                 elif ijv.shape[0] > 10000:
                     _unmon("convex_hull_ijv", too_large=True)
+                elif len(set(_ints(idxs))) != idxs.size:
+                    # accepted by the API; kernel_pre_hull is FALSE on it (C19_hull_pre_rejects_repeated_label): known
+                    # finding F36 when the largest label repeats - decided by the crash / ASan stream, not by (B)
+                    _unmon("convex_hull_ijv", repeated_index_list=True)
                 else:
                     _rec(K_HULL, "convex_hull_ijv", [K_HULL, [[int(v) for v in r] for r in ijv.tolist()], _ints(idxs)])
             except Exception as e:      # noqa
@@ -518,6 +529,9 @@ def _special_class(owner, c):
     attribution applies the owning property's rule)"""
     if not isinstance(c, dict):
         return None
+    if owner == "own" and c.get("fn") == "hull_repeat":
+        idx = [int(v) for v in c.get("idx", [])]
+        return "F36" if (idx and idx.count(max(idx)) > 1) else "hull-index-control"
     if owner == "c01" and c.get("fn") == "lap" and (c.get("f20") or c.get("pat") == "forced-expensive"):
         return "F20"
     if owner == "c01" and c.get("fn") == "flap":
@@ -572,7 +586,8 @@ def _owner_cases(ctx, name, want, tier):
         pick |= set(spec[::step][:45])
         if name == "c10":       # the zero-length instance (F26) and a few of the overflow classes (they may hang: F21 / F25)
             pick -= set(spec)
-            pick |= set(i for i in spec if cases[i].get("kind") == "empty") | set(spec[:: max(1, len(spec) // 6)][:6])
+            nh = 3 if tier == "quick" else 12          # these calls may hang (F21 / F25): each costs the fork time limit
+            pick |= set(i for i in spec if cases[i].get("kind") == "empty") | set(spec[:: max(1, len(spec) // nh)][:nh])
     if name == "c01":       # finding F20: every case of the class (sentinel model starves), and a share of the generator
         f20 = [i for i, c in enumerate(cases) if isinstance(c, dict) and c.get("f20")]         # class that reaches it
         fx = [i for i, c in enumerate(cases) if isinstance(c, dict) and c.get("pat") == "forced-expensive"]
@@ -580,6 +595,9 @@ def _owner_cases(ctx, name, want, tier):
     rest = [i for i in range(n) if i not in pick]
     extra = ctx.rng.choice(len(rest), size=max(0, min(len(rest), want - len(pick))), replace=False)
     pick |= set(rest[int(i)] for i in extra)
+    if name == "c01":       # C01's float-stall class (F35: the call never returns): a hang is no memory error, keep a few
+        fl = sorted(i for i in pick if isinstance(cases[i], dict) and cases[i].get("fn") == "flap")
+        pick -= set(fl[(2 if tier == "quick" else 10):])
     return [cases[i] for i in sorted(pick)]
 
 
@@ -615,6 +633,20 @@ def _own_cases(ctx):
         out.append({"owner": "own", "case": {"fn": "lapjv_perm2", "n": n, "seed": int(rng.randint(1 << 30))}})
     # length-1 / strided histograms for every stride
     out.append({"owner": "own", "case": {"fn": "leak_probe"}})
+    # finding F36: index lists that REPEAT THE LARGEST label (convex_hull_ijv reads labels_ijv[pixidx, 2] one row past the
+    # sorted buffer), with controls (a repeated non-maximal label, repeat-free lists), through every API that hands the
+    # caller's index list to the kernel; each call fork-isolated
+    imgs = {"witness": [[0] * 8] + [[0, 2] + [0] * 6] + [[0] * 8] * 6,
+            "three": [[1, 1, 0, 0, 2, 2, 0, 0], [1, 1, 0, 0, 2, 2, 0, 0], [0, 0, 0, 0, 0, 0, 0, 0], [0, 3, 3, 3, 0, 0, 0, 0],
+                      [0, 3, 3, 3, 0, 0, 0, 0], [0, 0, 3, 0, 0, 0, 0, 0]],
+            "one": [[0, 0, 0, 0], [0, 5, 5, 0], [0, 5, 5, 0], [0, 0, 0, 0]]}
+    lists = {"witness": [[2, 2], [2]], "one": [[5, 5], [5, 5, 5], [5]],
+             "three": [[3, 3], [1, 3, 3], [3, 1, 3], [1, 2, 3, 3, 3], [1, 1, 3], [2, 2], [1, 2, 2, 3], [1, 2, 3], [3, 1], [2]]}
+    for api in ("convex_hull", "convex_hull_ijv", "minimum_enclosing_circle", "calculate_convex_hull_areas",
+                "calculate_solidity", "zernike"):
+        for name, img in imgs.items():
+            for idx in lists[name]:
+                out.append({"owner": "own", "case": {"fn": "hull_repeat", "api": api, "a": img, "idx": idx}})
     for stride in (1, 2, 3, 8, 64, 4096):
         for n in (1, 2):
             out.append({"owner": "own", "case": {"fn": "emd_strided", "n": n, "stride": stride}})
@@ -643,6 +675,19 @@ def _own_impl(c):
     fn = c["fn"]
     if fn == "leak_probe":
         return "ok"             # the probe runs in check(), in its own process against the plain build
+    if fn == "hull_repeat":
+        lab = np.array(c["a"], np.int32)
+        idx = np.array(c["idx"], np.int32)
+        api = c["api"]
+        if api == "convex_hull_ijv":
+            ii, jj = np.nonzero(lab)
+            M.convex_hull_ijv(np.column_stack((ii, jj, lab[ii, jj])), idx)
+        elif api == "zernike":
+            from centrosome import zernike as Z
+            Z.zernike(Z.get_zernike_indexes(3), lab, idx)
+        else:
+            getattr(M, api)(lab, idx)
+        return "ok"
     if fn == "propagate_big":
         from centrosome.propagate import propagate
         r = np.random.RandomState(c["seed"])
@@ -824,20 +869,24 @@ def impl(case):
     owner = case["owner"]
     status = "ok"
     try:
-        if owner == "own":
+        if owner == "own" and case["case"].get("fn") == "hull_repeat":
+            r = _forked_rec(_own_impl, case["case"], 25)        # finding F36 class and its controls: fork-isolated
+            _Rec.calls, _Rec.counts = None, None
+            return r
+        elif owner == "own":
             _own_impl(case["case"])
         elif _special_class(owner, case["case"]):
             # classes of the known findings: fork-isolated (a crash is an outcome), the spy records inside the child
             mod = importlib.import_module("harness.props." + owner)
             if owner == "c01" and case["case"].get("fn") == "flap":
-                fn, limit = mod._impl_flap, 6
+                fn, limit = mod._impl_flap, 3
             elif owner == "c01":
                 fn, limit = mod._impl_lap, 25
             elif owner == "c07":
                 fn, limit = mod._wide_child, 240            # 1.5 million columns: 4.3 GB of scratch, seconds (minutes under ASan)
             elif owner == "c10":
                 os.environ["C10_NO_FORK"] = "1"             # c10.impl would start its own subprocess: run it in OUR child
-                fn, limit = mod.impl, 5
+                fn, limit = mod.impl, 3
             else:
                 fn, limit = mod.impl, 25
             r = _forked_rec(fn, case["case"], limit)
@@ -1054,7 +1103,7 @@ def _crash_text(o):
     return "%s %s" % (o["crash"], head or d.strip()[-300:])
 
 
-KF_IDS = {"F20": "F20/C19", "F22": "F22/C19", "F23": "F23/C19", "F26": "F26/C19"}
+KF_IDS = {"F20": "F20/C19", "F22": "F22/C19", "F23": "F23/C19", "F26": "F26/C19", "F36": "F36/C19"}
 F20_ID = KF_IDS["F20"]  # known_findings.json lists these under the owning property ("also": C19); core filters by property
                         # and drops duplicate ids, so C19's fragment carries its own ids
 KF_TEXT = {
@@ -1062,6 +1111,7 @@ KF_TEXT = {
     "F23": "F23-class input (median_filter on a very wide image: the 32-bit scratch size of allocate_histograms may wrap): ",
     "F26": "F26-class input (emd_hat_int32 on zero-length histograms with a flow type): ",
     "F22": "F22-class input (convex_hull_ijv with coordinates above 46340: the int32 turn test wraps): ",
+    "F36": "F36-class input (index list that repeats its largest label handed to convex_hull_ijv): ",
 }
 
 
@@ -1117,6 +1167,15 @@ def attribute(ctx, case, out, clause):
                 if not pyx or not re.search(r"lapjv_\d+augment(?!ing)", pyx[0]):
                     return None
             return KF_IDS[k]
+        if k == "F36":
+            idx = [int(v) for v in inner["idx"]]
+            if not (idx and idx.count(max(idx)) > 1):
+                return None
+            if frames:
+                pyx = [f for f in frames if "__pyx" in f]
+                if not pyx or "convex_hull_ijv" not in pyx[0]:
+                    return None
+            return KF_IDS[k]
         if k == "F23":
             a = _owner_model(ctx, "c07", "entry_alloc", [[inner["W"], inner["radius"]]])[0]
             return KF_IDS[k] if (isinstance(a, list) and len(a) == 3 and a[2] == 1) else None
@@ -1136,7 +1195,7 @@ def attribute(ctx, case, out, clause):
 def reproduce_finding(ctx, finding):
     if finding.get("id") not in KF_IDS.values():
         return False
-    owner = finding.get("owner") or {"F20/C19": "c01", "F22/C19": "c02", "F23/C19": "c07", "F26/C19": "c10"}[finding["id"]]
+    owner = finding.get("owner") or {"F20/C19": "c01", "F22/C19": "c02", "F23/C19": "c07", "F26/C19": "c10", "F36/C19": "own"}[finding["id"]]
     case = {"owner": owner, "case": finding["witness"]}
     o = ctx.run_impl([case])[0]
     if isinstance(o, dict) and ("crash" in o or str(o.get("status", "")).startswith("crash:")):
@@ -1203,7 +1262,8 @@ def check(ctx, cases, outs):
                 ctx.count("pre:" + call["name"])
             else:
                 ctx.count(("too-large:" if call.get("too_large") else "rejected-by-kernel:" if call.get("rejected")
-                           else "not-2d:" if call.get("not_2d") else "unmonitored:") + call["name"])
+                           else "not-2d:" if call.get("not_2d") else "repeated-index-list(kernel_pre false, F36 class):"
+                           if call.get("repeated_index_list") else "unmonitored:") + call["name"])
         for name, cnt in (o.get("counts") or {}).items():
             ctx.count("calls:" + name, cnt)
         verdicts[ci] = v
@@ -1214,8 +1274,14 @@ def check(ctx, cases, outs):
         if len(cases) <= 80:
             sel = list(range(len(cases)))
         else:
-            own = [i for i, c in enumerate(cases) if c["owner"] == "own" or _special_class(c["owner"], c["case"])]
+            def _slow_wide(c):      # c07 wide image below the wrap threshold: seconds in the plain build, minutes under ASan
+                return (ctx.quick() and c["owner"] == "c07" and isinstance(c["case"], dict) and c["case"].get("fn") == "wide"
+                        and max(c["case"]["H"], c["case"]["W"]) > 100000
+                        and c["case"]["W"] + 2 * max(2, c["case"]["radius"]) + 1 < 1573248)
+            own = [i for i, c in enumerate(cases) if (c["owner"] == "own" or _special_class(c["owner"], c["case"]))
+                   and not _slow_wide(c)]
             rest = [i for i, c in enumerate(cases) if not (c["owner"] == "own" or _special_class(c["owner"], c["case"]))]
+            ctx.count("quick tier: wide images below the wrap threshold not run under ASan", sum(1 for c in cases if _slow_wide(c)))
             k = ctx.n(700, 4000)
             pick = ctx.rng.choice(len(rest), size=min(len(rest), k), replace=False) if rest else []
             sel = own + sorted(rest[int(i)] for i in pick)
@@ -1363,7 +1429,8 @@ MANIFEST = {
     "level_note": ("not expressible in the model: malloc/realloc failure, int32 wrap of flat indices beyond 2^31 "
                    "elements, the C++ containers of FastEMD outside the heap, Cython buffer unpacking. INPUT BOUNDS under which "
                    "the theorems speak about the compiled code: hull coordinates <= 46340 (beyond: F22), median columns + "
-                   "2*radius + 1 < 1573248 (beyond: F23), non-empty EMD histograms (F26), lapjv inputs on which the sentinel "
+                   "2*radius + 1 < 1573248 (beyond: F23), non-empty EMD histograms (F26), index lists for convex_hull_ijv that do "
+                   "not repeat their largest label (F36), lapjv inputs on which the sentinel "
                    "model does not starve (F20); flat sizes below 2^30 / 2^31 elements. Not proved: that "
                    "augment's search always returns - it is FALSE for the kernel as written: known finding F20 (sentinel "
                    "inf = sum(c)+1 too small, p_scan[low] read past up, segfault inside the quantifier; "
